@@ -284,7 +284,7 @@ func init() {
 		c01.body(c)
 	}
 	core.Register(&core.Prop{ID: "C01", Level: "exploration", Body: c01Body, Passes: c01Passes, CrashKey: crashKeyGeneric, MinDistinct: 50,
-		Rule: "Cases: every acyclic shape on 1..3 steps (1..4 in thorough) x PRNG-drawn assignments of {continueOn, retryPolicy, precondition met/unmet, fail-first-k / fail-always scripts, maxActiveRuns} x depth-first enumeration of the controller's decisions (which open Run() completes between which two per-node checks of the scheduling loop; capped, truncation counted); random DAGs up to 6 steps under PRNG decisions; 'hold' cases where every gate stays closed as long as the loop makes progress; free-running cases under the race detector. Executions are of the real scheduler.Schedule with a scripted executor; the dependency gate is evaluated online inside Run() entry through Node.State(). Real pass: 24 (300) densely connected definitions of 14-30 steps with forward references (dependencies on steps defined later), loaded from YAML and run by the real binary in a fresh process (node ids 1..n), every step a child process writing BEGIN / END marker lines: a step begins after all its dependencies have ended, every step runs once, the run exits 0. Non-trivial = at least one step WITH dependencies was executed (>=1 dependency-gate obligation). Distinct = distinct (shape+flags+scripts, order of launch/enter/exit events).",
+		Rule: "Cases: every acyclic shape on 1..3 steps (1..4 in thorough) x PRNG-drawn assignments of {continueOn, retryPolicy, precondition met/unmet (1-3 conditions on environment variables, one step in four expecting the empty value), fail-first-k / fail-always scripts, maxActiveRuns} x depth-first enumeration of the controller's decisions (which open Run() completes between which two per-node checks of the scheduling loop; capped, truncation counted); random DAGs up to 6 steps under PRNG decisions; 'hold' cases where every gate stays closed as long as the loop makes progress; free-running cases under the race detector. Executions are of the real scheduler.Schedule with a scripted executor; the dependency gate is evaluated online inside Run() entry through Node.State(). Real pass: 24 (300) densely connected definitions of 14-30 steps with forward references (dependencies on steps defined later), loaded from YAML and run by the real binary in a fresh process (node ids 1..n), every step a child process writing BEGIN / END marker lines: a step begins after all its dependencies have ended, every step runs once, the run exits 0. Non-trivial = at least one step WITH dependencies was executed (>=1 dependency-gate obligation). Distinct = distinct (shape+flags+scripts, order of launch/enter/exit events).",
 		Assumptions: []string{"interleavings finer than the hook points (between two statements of the loop) are only sampled by the free-running -race pass, not enumerated",
 			"a data race is a violation only when both accesses are inside the lock-taking accessors of node state (DESIGN 1.1)"}})
 
